@@ -178,6 +178,11 @@ def retry_table(ctx, rule, f):
 
 
 def run(ctx):
+    _run(ctx)
+    _hooks_rule(ctx)
+
+
+def _run(ctx):
     prog, sd = ctx.prog, ctx.sd
     S = sd.consts
     completed = sd.pred_set('is_completed')
@@ -604,6 +609,14 @@ def run(ctx):
                      'policy hook does not start with super().%s(task): '
                      'its fields are used unevaluated / unvalidated' % hook,
                      ctx.loc(sf))
+
+
+def _hooks_rule(ctx):
+    from mstatic.rules import shared
+    r6 = ctx.rule('R6', 'every configured policy gets its before-start / '
+                  'after-complete hook', 'EXH')
+    shared.policy_hooks_total(ctx, r6)
+    r6.floor(4)
 
 
 def _recheck_between(cfg, a, b):
